@@ -276,15 +276,21 @@ class Oracle:
         self.prefix = list(prefix)
         self.trace = []  # (chosen, options, label)
 
+    def peek(self):
+        """the decision already taken for the next choice point when replaying a prefix, else None"""
+        i = len(self.trace)
+        return self.prefix[i] if i < len(self.prefix) else None
+
     def choose(self, options, label):
         """options: list of hashable option ids (already feasibility-filtered)."""
         i = len(self.trace)
         if i < len(self.prefix):
+            # replaying: the earlier run found this option feasible-or-undecided; feasibility
+            # checks are time-limited and need not repeat identically, so the prefix wins
             c = self.prefix[i]
-            if c not in options:
-                raise EngineError("non-deterministic replay at %s: %r not in %r" % (label, c, options))
-        else:
-            c = options[0]
+            self.trace.append((c, [c], label))
+            return c
+        c = options[0]
         self.trace.append((c, list(options), label))
         return c
 
